@@ -53,6 +53,9 @@ type Sched struct {
 	gap           int        // yield points already passed while waiting for plan[pos]
 	mutexes       []lockWord // state words of every segment lock in the world
 	freeRun       int32      // set by the monitor of Run: scheduling abandoned, every task runs freely (see Run)
+	ParkUnderLock bool       // yield points under a held lock are honoured (see Yield)
+	risky         int32      // a task has been parked while holding a lock: the monitor watches closely
+	UnderLockSw   int        // switches taken while a lock was held
 	FreeRuns      int        // number of times a run fell back to free running
 	ForeignEvents int        // seam events reached by goroutines that are not tasks
 	Switches      int
@@ -215,13 +218,23 @@ func (s *Sched) Yield(kind int, arg uint64) {
 		return
 	}
 	s.Yields++
+	underLock := false
 	if s.anyLocked() {
-		s.Skipped++
-		return
+		if !s.ParkUnderLock {
+			s.Skipped++
+			return
+		}
+		underLock = true
 	}
 	to := s.pick(false)
 	if to < 0 {
 		return
+	}
+	if underLock {
+		// the next task may need the lock this one holds: the monitor of Run
+		// notices within milliseconds and falls back to free running
+		s.risky = 1
+		s.UnderLockSw++
 	}
 	from := s.cur
 	s.Switches++
@@ -309,10 +322,11 @@ func (s *Sched) Run(bodies []func(task int), timeout time.Duration) *HangInfo {
 	// this run: every parked task is released and all run freely. The oracles
 	// compare with solo results and do not depend on the schedule. Only if the
 	// run still does not finish is it a hang.
-	tick := time.NewTicker(100 * time.Millisecond)
+	tick := time.NewTicker(5 * time.Millisecond)
 	defer tick.Stop()
 	deadline := time.Now().Add(timeout)
 	lastEv, quiet := -1, 0
+	nextLook := 0
 	for {
 		select {
 		case <-doneCh:
@@ -329,13 +343,24 @@ func (s *Sched) Run(bodies []func(task int), timeout time.Duration) *HangInfo {
 			// for a hang; the shard's stall watchdog bounds the whole case
 			lastEv, quiet = ev, 0
 			deadline = time.Now().Add(timeout)
+			nextLook = 0
 		} else {
 			quiet++
 		}
-		if quiet >= 3 && s.freeRun == 0 && len(bodies) > 1 {
+		// look at the goroutines after 300 ms without a seam event (15 ms when a
+		// task was parked under a lock), then at doubling intervals
+		first := 60
+		if s.riskyRacy() {
+			first = 3
+		}
+		if nextLook == 0 {
+			nextLook = first
+		}
+		if quiet >= nextLook && s.freeRun == 0 && len(bodies) > 1 {
+			nextLook *= 2
 			if parked := s.parkedTasks(); len(parked) > 0 && blockedInIce(allStacks()) {
 				s.enterFreeRun(parked)
-				quiet = 0
+				quiet, nextLook = 0, 0
 				deadline = time.Now().Add(timeout)
 			}
 		}
@@ -351,6 +376,9 @@ func allStacks() string {
 	buf := make([]byte, 4<<20)
 	return string(buf[:runtime.Stack(buf, true)])
 }
+
+//go:norace
+func (s *Sched) riskyRacy() bool { return s.risky != 0 }
 
 //go:norace
 func (s *Sched) eventsRacy() int { return s.Events + s.ForeignEvents }
